@@ -1,4 +1,5 @@
 import SparseSpace.Model.FuncCache
+import SparseSpace.Model.AnalyticTrans
 import SparseSpace.Drive.Util
 /-! Line-protocol driver for the `FuncCache` / `AnalyticInt` models (C12).
 
@@ -16,9 +17,42 @@ import SparseSpace.Drive.Util
     (`ana multilin` is the formula of the code under test, `anaMultilinearCurrent`; the model variant is `Cfg.current`)
     evl linear|multilin <c> <x> | evl poly <k> <c> <x> | evl poly1d <c> <x> | evl linearvec <c> <x>   → <rational>
     a point is `x1,x2,..` with rationals `p/q`; `-` is the empty tuple
+    anaT pp|c0|disc <c> <m|b> <s> <e> | anaT expvar <s> <e> | anaT osz <c> <o> <s> <e> | anaT corner <c> <s> <e>
+    evlT pp|c0|disc <c> <m|b> <x>     | evlT expvar <x>     | evlT osz <c> <o> <x>     | evlT corner <c> <x>
+        → the IEEE-754 bits of the `Float` instance of the Model/AnalyticTrans term, as a decimal UInt64
+        (arguments are the exact rationals of the Python floats)
 -/
 namespace SparseSpace.Drive.C12
-open SparseSpace SparseSpace.Drive SparseSpace.FuncCache SparseSpace.AnalyticInt
+open SparseSpace SparseSpace.Drive SparseSpace.FuncCache SparseSpace.AnalyticInt SparseSpace.AnalyticTrans
+
+/-! the `Float` instance of the carrier of Model/AnalyticTrans (C `double`, libm) -/
+instance : NatCast Float := ⟨Nat.toFloat⟩
+instance : HPow Float Nat Float := ⟨fun x n => Float.pow x n.toFloat⟩
+instance : NumOps Float :=
+  { exp := Float.exp, cos := Float.cos, sin := Float.sin, arctan := Float.atan, rpow := Float.pow,
+    pi := 3.141592653589793 }
+
+/-- the exact rational of a Python float back to the float (numerator and denominator are exactly representable) -/
+def ratToFloat (r : Rat) : Float := Float.ofInt r.num / Float.ofNat r.den
+
+def fvec? (s : String) : Option (List Float) := (parseRatVec? s).map (·.map ratToFloat)
+def fnum? (s : String) : Option Float := (parseRat? s).map ratToFloat
+def fmtBits (x : Float) : String := toString x.toBits
+
+def transLine : List String → Option String
+  | ["anaT", "pp", c, m, a, b] => do some (fmtBits (anaProductPeak (← fvec? c) (← fvec? m) (← fvec? a) (← fvec? b)))
+  | ["anaT", "c0", c, m, a, b] => do some (fmtBits (anaC0 (← fvec? c) (← fvec? m) (← fvec? a) (← fvec? b)))
+  | ["anaT", "disc", c, m, a, b] => do some (fmtBits (anaDisc (← fvec? c) (← fvec? m) (← fvec? a) (← fvec? b)))
+  | ["anaT", "expvar", a, b] => do some (fmtBits (anaExpVar (← fvec? a) (← fvec? b)))
+  | ["anaT", "osz", c, o, a, b] => do some (fmtBits (anaOsz (← fvec? c) (← fnum? o) (← fvec? a) (← fvec? b)))
+  | ["anaT", "corner", c, a, b] => do some (fmtBits (anaCornerPeak (← fvec? c) (← fvec? a) (← fvec? b)))
+  | ["evlT", "pp", c, m, x] => do some (fmtBits (evalProductPeak (← fvec? c) (← fvec? m) (← fvec? x)))
+  | ["evlT", "c0", c, m, x] => do some (fmtBits (evalC0 (← fvec? c) (← fvec? m) (← fvec? x)))
+  | ["evlT", "disc", c, m, x] => do some (fmtBits (evalDisc (← fvec? c) (← fvec? m) (← fvec? x)))
+  | ["evlT", "expvar", x] => do some (fmtBits (evalExpVar (← fvec? x)))
+  | ["evlT", "osz", c, o, x] => do some (fmtBits (evalOsz (← fvec? c) (← fnum? o) (← fvec? x)))
+  | ["evlT", "corner", c, x] => do some (fmtBits (evalCornerPeak (← fvec? c) (← fvec? x)))
+  | _ => none
 
 inductive Desc
   | const (v : Rat) | linear (c : List Rat) | poly (k : Nat) (c : List Rat) | multilin (c : List Rat)
@@ -142,7 +176,10 @@ def stepLine (s : Option DS) (line : String) : Option DS × String :=
   | ["evl", "poly1d", c, x] =>
     match parseRatVec? c, parseRat? x with
     | some c, some x => (s, fmtRat (evalPoly1d c x)) | _, _ => (s, "bad-op")
-  | _ => (s, "bad-op")
+  | toks =>
+    match toks with
+    | "anaT" :: _ | "evlT" :: _ => (s, (transLine toks).getD "bad-op")
+    | _ => (s, "bad-op")
 
 end SparseSpace.Drive.C12
 
